@@ -1,10 +1,37 @@
 """What MANIFEST.json claims, per property."""
-HOOK_COMMITS = ["77b2c42", "6128e10", "5f416f7", "71aa134"]
-FIX_COMMITS = ["5da2d24", "9b55744"]
+HOOK_COMMITS = ["77b2c42", "6128e10", "5f416f7", "71aa134", "8a2b985"]
+FIX_COMMITS = ["5da2d24", "9b55744", "1ceb643", "2d49340"]
 NOTES = ("Every check: TLC model-checks the module's design on small constants, then binds it to /repo's current working "
          "tree (rebuilt on every run with -tags verif). Exit 2 = infrastructure problem, never a verdict.")
 NOT_APPLICABLE = {}
 CHECKS = {
+    "C08": {
+        "text": "FzfPipeline.tla models reader, coordinator (event box with overwrite semantics, handlers in any order), matcher "
+                "(two-slot request box, merger cache, per-chunk cache with narrowing, cancellation between chunks) and terminal, "
+                "one action per critical section; TLC checks exhaustively that every published result is the sequential filter of "
+                "its snapshot, both caches are sound, and that at quiescence the shown list is the fresh filter of the current "
+                "query (plus eventual quiescence under weak fairness); the deviation 'serve the older of two pending requests' "
+                "is a named action whose counterexample is kept. Real sessions (tmux; producer writing in seeded bursts while "
+                "edits, chained edits and sort toggles are POSTed) are recorded by the hooks and validated by Trace_Pipeline: "
+                "each event must be an enabled protocol step, every published list and the final list must equal what a fresh "
+                "`fzf --filter` yields for that query over that prefix, GET / must agree.",
+        "design_ref": "DESIGN.md §6 C08, Appendix B.1",
+        "note": "Yardstick = filter mode of the same binary (bound to the spec by C01/C04). Sessions do not use --tail/reload/"
+                "exclude/change-nth yet. Trusted: TLC, hooks (announce-before-Set is modelled explicitly), tmux.",
+        "technique": "TLA+ spec + TLC exhaustive MC with liveness; trace validation of recorded concurrent executions against the spec",
+    },
+    "C13": {
+        "text": "Same protocol specification as C08 (FzfPipeline: published result = filter of the snapshot taken at request time, "
+                "no partial publish after cancellation, cache entries only for full shared chunks); the trace validation is run on "
+                "sessions where searches overlap with loading (slow producer, edits throughout) on a `go build -race` binary. "
+                "Every publish while loading is compared with `fzf --filter` over exactly the snapshot prefix; cancelled scans "
+                "must be followed by a newer request, never by a publish.",
+        "design_ref": "DESIGN.md §6 C13, §8",
+        "note": "The 'no data race' clause is not expressible in TLA+; the Go race detector runs as a monitor on the same sessions "
+                "and its reports are surfaced as violations labelled monitor-found. Gate-forced cancellation points (E binding) "
+                "are future work.",
+        "technique": "TLA+ spec + TLC MC; trace validation of executions recorded from a race-detector build",
+    },
     "C07": {
         "text": "FzfOutput.tla defines stdout (query line, expect line, print queue, selection in selection order or current line; "
                 "original record, escape sequences removed under --ansi, --accept-nth field) and the exit status for every way a "
